@@ -436,7 +436,7 @@ theorem syncCreateTasks_good (jo : JobObj) (rj : Job) (tasks : List Task) (s : S
   · exact Good.of_eq (fun q' => by
         rw [JobCtlPlan.syncCreateTasks_eq, if_neg h1]
         exact if_pos h2)
-      (Good.pure (fun _ => some (rj, tasks)) s (fun _ => rfl))
+      (Good.pure (fun t => some (rj, adoptUnrecordedTasks t jo tasks)) s (fun _ => rfl))
   cases hcm : computeMissingIndexesForCreation s.d rj (rj.indexes s.d) with
   | none =>
     refine Good.of_eq (fun q' => ?_) (Good.pure (fun _ => none) s (fun _ => rfl))
